@@ -15,6 +15,7 @@ CONSTANTS Objs,        \* model objects, strings "o1".."o3"
           MaxDepth,    \* bound on TLCGet("level")
           Eoc,         \* Session(expire_on_commit=...)
           Acts,        \* enabled action groups (per-property cfgs)
+          Start,       \* "empty": all objects transient, no rows; "committed": o1 was added and committed before the walk starts
           Dev          \* named deviations the real code shows (probed): subset of DevAll
 VARIABLES st, last
 vars == <<st, last>>
@@ -409,7 +410,9 @@ DoFailRedo(s, fk) ==
 \* ------------------------------------------------------------------ actions
 Clear(s) == [s EXCEPT !.ev = {}, !.sql = 0]
 Step(name, arg, res) == LET r == res IN st' = r.st /\ last' = [a |-> name, arg |-> arg, ret |-> r.ret, ev |-> r.st.ev, sql |-> r.st.sql]
-Init == st = InitSt /\ last = [a |-> "init", arg |-> <<>>, ret |-> "ok", ev |-> {}, sql |-> 0]
+\* start state of the cfgs that spend their depth budget inside savepoints: the state after add(o1); commit()
+StartSt == IF Start = "committed" THEN Clear(DoCommit(DoAdd(InitSt, "o1").st).st) ELSE InitSt
+Init == st = StartSt /\ last = [a |-> "init", arg |-> <<>>, ret |-> "ok", ev |-> {}, sql |-> 0]
 On(g) == g \in Acts
 \* generator preconditions (documented misuse the model does not follow): a detached object is re-attached only if its row
 \* exists (otherwise the documented "Identity map already had an identity ... replacing it" warning path is entered)
